@@ -15,11 +15,12 @@ RULE = ("valid streams of every method (sequential, kd-tree, Edgebreaker standar
         "unchanged, and a refused allocation must be an array sized by a declared element count. The Lean model decodes "
         "the same bytes: status (ok / error / unknown version) for every stream the model decides, consumed bytes and "
         "geometry for sequential streams; distinct op lines")
-THEOREM_BACKED = ("decode_total (an outcome for every byte string), decode_returns_status (geometry and status ok, or no "
-                  "geometry and an error status), decode_some_ok_valid, decode_consumes_prefix / consumed_le_length (the "
-                  "remaining input is a suffix of the caller's bytes), unknown_major_rejected / unknown_minor_rejected "
-                  "(version gate), fuel sufficiency: metadata_nesting_fuel_sufficient, symbol_table_fuel_sufficient, "
-                  "le_groups_fuel_sufficient, delta_decode_fuel_sufficient")
+THEOREM_BACKED = ("decode_total; decode_returns_status (decodeGeometrySeq: geometry and status ok, or no geometry and an error "
+                  "status) and decode_returns_status_with (dispatcher with arbitrary disciplined body decoders); "
+                  "decode_some_ok_valid; decode_consumes_prefix / consumed_le_length (remaining input is a suffix of the caller's "
+                  "bytes); unknown_major_rejected / unknown_minor_rejected (version gate of the dispatcher, any body decoders); "
+                  "fuel sufficiency: metadata_nesting_fuel_sufficient, symbol_table_fuel_sufficient, le_groups_fuel_sufficient, "
+                  "delta_decode_fuel_sufficient")
 CORRESPONDENCE_ONLY = ("memory safety, absence of undefined behaviour and termination of the compiled C++ are observed "
                        "(ASan+UBSan, guard pages, watchdog) on the generated corruption campaign, not proved; kd-tree and "
                        "Edgebreaker decoders are outside the model")
@@ -53,6 +54,7 @@ def generate(rng, tier):
     for s, prof in plan:
         for tag, data in R.mutations(rng, s, streams, prof):
             cases.append(R.make_case(data, "01234", FLAVOUR, ORACLES, (tag, "mut:" + s.cls), base=s.data))
+    cases += R.foreign_corrupt_cases(rng, tier, FLAVOUR)
     return cases
 
 
